@@ -9,7 +9,7 @@ from .engine import EngineWorld, drive_standard, gen_spec
 
 
 def simulate(tape, cfg: dict[str, Any], check: Callable, *, gen=gen_spec, scenario=drive_standard,
-             setup: Callable | None = None, nontrivial: Callable | None = None,
+             setup: Callable | None = None, nontrivial: Callable | None = None, check_on_cap: bool = False,
              want_trace: bool = False) -> dict:
     import os as _os
     want_trace = want_trace or bool(_os.environ.get("VERIF_WANT_TRACE"))
@@ -29,6 +29,14 @@ def simulate(tape, cfg: dict[str, Any], check: Callable, *, gen=gen_spec, scenar
             harness = f"deadlock: {e}"
         if harness is None:
             check(world, spec, outcome)
+        elif check_on_cap and harness.startswith("cap"):
+            # the partial trace is still a real execution prefix: safety rules may be judged on it
+            try:
+                check(world, spec, {"capped": True})
+            except Exception:  # noqa: BLE001
+                pass
+            if world.violations:
+                harness = None
         nt = bool(nontrivial(world, spec, outcome)) if (nontrivial and harness is None) else False
         res = {
             "violations": world.violations,
